@@ -200,7 +200,8 @@ def h_blocking(ctx):
 
 
 # ------------------------------------------------------------------ K3: context walks with symbolic node kinds
-ATTR_TEXTS = ("#[test]", "#[cfg(test)]", "#[inline]", "#[cfg(not(test))]", "#[derive(Debug)]", "#[tokio::test]")
+ATTR_TEXTS = ("#[test]", "#[cfg(test)]", "#[inline]", "#[cfg(not(test))]", "#[derive(Debug)]", "#[tokio::test]",
+              "#[cfg_attr(test, derive(Debug))]", "#[doc = \"see the test suite\"]")
 
 
 def h_context_kinds(ctx, part="test", depth=3):
